@@ -52,7 +52,7 @@ void h_order_types(void)
 def build(tier, seed):
     if '-I' + os.path.join(VERIF, 'drivers') not in ipv.CLANG_ARGS:
         ipv.CLANG_ARGS.append('-I' + os.path.join(VERIF, 'drivers'))
-    fns = ['vars', 'mixed', 'parameters', 'enumerators']
+    fns = ['vars', 'mixed', 'parameters', 'enumerators', 'position']
     names = {'s_' + k: 'drv::s_' + k for k in fns}
     NC = 'ipr::impl::node_compare::operator()'
     names.update(cmp_ovl_name=(NC, 'Overload'), cmp_entry_type=(NC, '=_ZNK3ipr4impl12node_compareclERKNS0_14overload_entryERKNS_4TypeE'), cmp_entry_entry=(NC, '=_ZNK3ipr4impl12node_compareclERKNS0_14overload_entryES4_'),
@@ -93,7 +93,8 @@ def build(tier, seed):
     what = dict(vars='every history of <= 3 variable declarations over two names and two types (symbolic choices), clauses asserted after every step',
                 mixed='a declaration followed by a redeclaration for each declaration kind (field, bit-field, type, function, primary/secondary template, variable then field)',
                 parameters='parameter lists of <= 3 parameters: homogeneous scope rules, singleton sets, positions equal to the index',
-                enumerators='enumerations of <= 3 enumerators: homogeneous scope rules, singleton sets, positions equal to the index')
+                enumerators='enumerations of <= 3 enumerators: homogeneous scope rules, singleton sets, positions equal to the index',
+                position='parameters, enumerators and bases report the position they were constructed with, for EVERY 64-bit position (add_member / declare_base pass the current size: checked in the history obligations)')
     global PATTERN
     PATTERN = {}
     hk = []
@@ -108,6 +109,16 @@ def build(tier, seed):
     for k in hk + [x for x in fns if x != 'vars']:
         o = Ob('C07.history.' + k, u, None, 'h_' + k.replace('.', '_'), what[k], kind='K5', replay='C07', timeout=120, flags=['--unwind', '12'], objbits=12, bounded='histories of at most 3 declarations')
         o.gen = mkgen(k); obs.append(o)
+    for o in obs:
+        if o.id == 'C07.history.position':
+            o.id, o.kind, o.bounded = 'C07.position', 'K1', None
+    # the two tables are C08's red-black trees: its rotation contracts and fix-up induction steps are what keeps look-ups right
+    # beyond the bounded histories, so they are run here as well
+    import C08
+    u8, o8, m8 = C08.build(tier, seed)
+    o8 = [o for o in o8 if o.kind != 'K5']
+    for o in o8:
+        o.id = 'C07.tables.' + o.id.split('.', 1)[1]
     for k, w in (('names', 'overload sets keyed by name'), ('types', 'entries keyed by type')):
         o = Ob('C07.order.' + k, u, None, 'h_order_' + k, 'node_compare as resolved at the table of %s: three-way total order, zero exactly for the same node (three symbolic keys)' % w, kind='K3', replay='C07', timeout=600, flags=['--unwind', '12'], objbits=12)
         o.gen = mkgen('mixed'); obs.append(o)
@@ -115,4 +126,4 @@ def build(tier, seed):
                 assumptions=['history length <= 3 (bounded obligations); longer histories rest on C08 (both tables stay valid search trees for any insertions with a total-order comparator) and on the comparator obligations proved here for all keys',
                              'std::vector<T*> / std::forward_list / std::deque sequence models; std::less<> on node addresses = address order',
                              'names and types are arbitrary foreign nodes (identity is all the scope machinery looks at)'])
-    return [u], obs, meta
+    return [u] + u8, obs + o8, meta
